@@ -16,18 +16,23 @@ import (
 	"io"
 	"os"
 	"os/exec"
+	"os/signal"
 	"path/filepath"
 	"runtime"
 	"sort"
 	"strconv"
 	"strings"
 	"sync"
+	"syscall"
 	"time"
 
 	"verif/internal/instrument"
 )
 
 var (
+	procMu sync.Mutex
+	procs  []*exec.Cmd
+
 	maxViol     = 3
 	shrinkLimit = 60 * time.Second
 )
@@ -231,6 +236,21 @@ func main() {
 			os.RemoveAll(scratch)
 		}
 	}
+	// remove the scratch copy also when the check is interrupted
+	sigc := make(chan os.Signal, 1)
+	signal.Notify(sigc, os.Interrupt, syscall.SIGTERM)
+	go func() {
+		<-sigc
+		procMu.Lock()
+		for _, c := range procs {
+			if c.Process != nil {
+				_ = c.Process.Kill()
+			}
+		}
+		procMu.Unlock()
+		cleanup()
+		os.Exit(2)
+	}()
 	if err != nil {
 		cleanup()
 		die(2, "%v", err)
@@ -582,6 +602,9 @@ func runWorkers(worker, sites, known, replayDir, prop, tier string, seed uint64,
 				errs[i] = err
 				return
 			}
+			procMu.Lock()
+			procs = append(procs, cmd)
+			procMu.Unlock()
 			go func() { done <- cmd.Wait() }()
 			limit := tc.budget*3 + 10*time.Minute
 			select {
